@@ -9,6 +9,8 @@ for f in sorted(glob.glob(os.path.join(HOME, "seeded", "*", "meta.json"))):
     diff = open(os.path.join(os.path.dirname(f), "patch.diff")).read()
     files = sorted(set(re.findall(r"^\+\+\+ b/(\S+)", diff, re.M)))
     need = re.sub(r"\s+", " ", m.get("summary") or m["needs_to_manifest"])[:260]
+    if m.get("strengthening"):
+        need += " — *" + m["strengthening"] + "*"
     rows.append(f"| `{name}` | {', '.join(files)} | {need} | {', '.join(f'{k}: {v}' for k, v in m['checks'].items())} |")
 print("| seeded change | touches | what it needs to manifest (from the author's notes) | result of `./check` (quick tier) |")
 print("|---|---|---|---|")
